@@ -41,11 +41,32 @@ type World struct {
 	XOpts  ExtractOpts
 	// LargeDen, when non-zero, makes 1 batch in LargeDen a large one (default 60)
 	LargeDen int
+	// PopParts: which parts of the Merged relation populate() checks on the merges
+	// it performs to give a protocol driver merged segments to work on
+	PopParts MergeParts
 }
 
 var chunkModes = []uint32{1, 2, 3, 5, 7, 64, 1024, 1025, 1026}
 var legacyModes = []uint32{1, 2, 3, 7, 64, 1024}
 var mergeBufs = []int{16, 64, 256, 4096, 1 << 20}
+
+// newWorldBadSyn is newWorld for the drivers whose oracle is "the same answer as
+// alone", errors included (C11, C20): one synonym world in six contains a
+// zero-length synonym, so that loading its thesaurus fails.
+func newWorldBadSyn(r *RunCtx, wantSyn bool) *World {
+	w := newWorld(r, wantSyn, false)
+	if wantSyn && r.ch.Prob(1, 6, "cfg.badsyn") {
+		w.Cfg.BadSyn = true
+		w.XOpts.ThesErrOK = true
+		// make sure the empty string is in the vocabulary of the first thesaurus
+		v := w.Cfg.SynFields[0].Vocab
+		if len(v) == 0 || v[0] != "" {
+			w.Cfg.SynFields[0].Vocab = append([]string{""}, v...)
+		}
+		r.count("probe.syn.unloadable-thesaurus-world")
+	}
+	return w
+}
 
 func newWorld(r *RunCtx, wantSyn, wantVec bool) *World {
 	w := &World{r: r}
